@@ -45,19 +45,21 @@ APP_TRUSTED = [
     "addresses are abstract integers (scenario accounts >= 0, module accounts negative); bech32 spelling is not modelled (the harness uses canonical lower-case addresses)",
 ]
 
-def chain(focus, quick_n, thorough_n, blocks=10, props=None, extra=None):
+def chain(focus, quick_n, thorough_n, blocks=10, props=None, extra=None, extra_q=None, extra_t=None):
     q = ["-n", quick_n, "-blocks", blocks, "-focus", focus, "-shard", 8]
     t = ["-n", thorough_n, "-blocks", blocks + 6, "-focus", focus, "-shard", 10]
     if props:
         q += ["-props", props]; t += ["-props", props]
     if extra:
         q += extra; t += extra
+    q += extra_q or []
+    t += extra_t or []
     return {"cmd": "chain", "quick": q, "thorough": t, "timeout": 7200}
 
-def app_prop(pid, focus, cats, level_text, level_note, quick_n=48, thorough_n=1500, extra_harness=None, technique=None):
+def app_prop(pid, focus, cats, level_text, level_note, quick_n=48, thorough_n=1500, extra_harness=None, technique=None, extra_q=None, extra_t=None):
     PROPS[pid] = {
         "model_targets": APP_MODEL_TARGETS + (extra_harness or {}).get("model_targets", []),
-        "harness": [chain(focus, quick_n, thorough_n, props=pid)] + (extra_harness or {}).get("harness", []),
+        "harness": [chain(focus, quick_n, thorough_n, props=pid, extra_q=extra_q, extra_t=extra_t)] + (extra_harness or {}).get("harness", []),
         "corr_categories": [CAT[c] for c in cats] + [CAT["result"], CAT["halt"]],
         "trusted_base": APP_TRUSTED,
         "assumptions": ["histories are generated (structured random); the theorems, not the histories, carry the universal claim"],
@@ -65,33 +67,34 @@ def app_prop(pid, focus, cats, level_text, level_note, quick_n=48, thorough_n=15
         "technique": technique or "Coq proof (invariants by induction over all operation histories of the executable model) + in-Coq differential replay of real ABCI histories against the model + property monitors on the real application",
     }
 
-app_prop("C07", "reg,mixed", ["wrk", "bcn"],
+app_prop("C07", "reg,reggov,mixed", ["wrk", "bcn"],
     "Coq theorems over all histories of the registry model (written once, instantiated for WRKChain and BEACON): a ghost log of accepted records only grows; every accepted record is, after any later history, either returned bit-for-bit or pruned (key below the lowest retained one), and everything queryable was accepted exactly so; WRKChain heights strictly increase; BEACON timestamp ids are 1,2,3,...; a rejected submission leaves the state unchanged. The model is replayed against real ABCI histories (every record ever accepted is re-read after every operation).",
     "Trusted: Coq kernel; hand-written registry model and its agreement with x/wrkchain, x/beacon as far as generated histories go; counters advanced once per transaction are unbounded integers in the model (2^64 transactions are out of reach).")
-app_prop("C08", "reg,mixed", ["wrk", "bcn"],
+app_prop("C08", "reg,reggov,mixed", ["wrk", "bcn"],
     "Coq theorems: in every reachable state the records in state of a registration are exactly the last n accepted ones, n evolving by n' = min(n+1, limit) (closed form min(total, limit) when no purchase follows a pruning); counters NumBlocks/NumInState, Lowest/First, Last equal what the store holds; the limit starts at the default in force at registration, changes only by the owner's successful purchase by exactly the purchased number (integer sum, no wrap) and never above the maximum in force; reported capacity = max(0, max - limit). Replayed against real histories with tiny limits, over-max and 2^63 / 2^64-1 slot counts, nested purchases and governance changes of the limits.",
     "Trusted: as C07. Reading note (DESIGN section 5): 'most recent min(total, limit)' is stated as the sharper recurrence because pruned records cannot come back after a later purchase.")
-app_prop("C09", "reg,mixed", ["wrk", "bcn"],
+app_prop("C09", "reg,reggov,mixed", ["wrk", "bcn"],
     "Coq theorems: the k-th successful registration gets start+k-1 (ids pairwise distinct, never reused); moniker, name, genesis/type, owner, registration time equal the submitted values in every later state; a record or purchase succeeds only for the registered owner; non-owners and unknown ids are rejected without effect. Replayed against real histories with many registrants and (signer, id) cross products.",
     "Trusted: as C07.")
-app_prop("C10", "stream,mixed", ["str", "bank"],
+app_prop("C10", "stream,strgov,mixed", ["str", "bank"],
     "Coq theorems: for every history of stream operations (any times, amounts, rates, fee rates in [0,1]) the escrow account holds per denomination exactly the sum of remaining deposits; stream operations neither mint nor burn; each release pays floor(release*fee) to the fee collector and the rest to the receiver, debiting escrow and deposit by the release; other streams are untouched; failed operations change nothing. App-level frame: no other message moves the escrow (blocked address). Replayed against real histories incl. governance changes of the fee rate and transfers aimed at the escrow.",
     "Trusted: Coq kernel; hand-written stream + bank model and its agreement with x/stream as far as generated histories go; LegacyDec.Mul of an integer by an 18-digit decimal is exact (modelled).")
-app_prop("C11", "stream", ["str", "bank"],
+app_prop("C11", "stream,strgov", ["str", "bank"],
     "Coq theorems for all rates in [1,2^63), all deposits, all time gaps: a release before the zero time pays exactly rate*floor(seconds since last release) (Go's Unix/nanosecond arithmetic proved equal to the floor), at/after it the whole remainder; create/top-up/update-flow set the zero time to now+floor(D/r) s, +floor(a/r) s, now+floor(D'/r') s; addSeconds never stores a wrapped time (a wrapped sum is unstorable, the tx aborts); the sustain invariant rate*(DZT-LOT) <= deposit*1e9 (or the stream is empty and expired) holds in every reachable state; hence a claim before the zero time never empties the stream and never pays more than rate*elapsed. Replayed against real histories and against the three pure functions on boundary tables.",
     "Trusted: as C10. Block times are after 1970 and storable (years 1..9999).",
     extra_harness={"harness": [{"cmd": "streamfn", "quick": ["-n", 3000], "thorough": ["-n", 200000, "-shard", 4000]}], "model_targets": ["model/StreamFnCheck.vo"]})
-app_prop("C12", "stream", ["str", "bank"],
+app_prop("C12", "stream,strgov", ["str", "bank"],
     "Coq theorems: in every state satisfying the stream invariant a claim on a funded stream succeeds, a cancel succeeds and refunds the unreleased remainder, an affordable top-up succeeds when the new zero time is representable; claim and cancel never return an arithmetic panic. The unrepresentable-top-up class is exhibited as a machine-checked witness (listed finding). Replayed against real histories with 18-decimal amounts above 2^63 and fee rates incl. 1.",
     "Trusted: as C10.")
 
-app_prop("C03", "ent,mixed", ["ent"],
+app_prop("C03", "ent,entgov,mixed", ["ent"],
     "Coq theorems over all histories of the enterprise model (messages, BeginBlock, governance parameter updates, fee unlocks): raising needs a whitelisted purchaser; a decision needs a current signer, a raised order and no earlier decision by that signer (decision signers of an order are pairwise distinct in every reachable state); the tally is exactly the stated rule for all valid parameters (Go's int()/uint64 casts proved harmless); status moves only nil->raised->accepted->completed or raised->rejected and terminal orders are bit-for-bit frozen; an order accepted before a BeginBlock is completed in it, crediting exactly its amount to locked[purchaser], totalLocked and supply, once. Replayed against real histories; the tally rule is also recomputed independently on the real application at every BeginBlock.",
-    "Trusted: Coq kernel; hand-written enterprise+bank model and its agreement with x/enterprise as far as generated histories go. Bech32 spelling is not modelled: the double-decision-by-upper-case defect was repaired by a fix: commit and is exercised by a dedicated implementation-side scenario.")
-app_prop("C04", "ent,fees,mixed", ["ent", "bank"],
+    "Trusted: Coq kernel; hand-written enterprise+bank model and its agreement with x/enterprise as far as generated histories go. Bech32 spelling is not modelled: the double-decision-by-upper-case defect was repaired by a fix: commit and is exercised by a dedicated implementation-side scenario.",
+    extra_q=["-entenum", 72], extra_t=["-entenum", 216])
+app_prop("C04", "efund,ent,fees", ["ent", "bank"],
     "Coq theorems: one inductive invariant over all enterprise histories - escrow balance = total locked = sum of locked entries, total spent = sum of spent entries, locked[a]+spent[a] = sum of a's completed orders, the escrow holds no other denomination - and the exact case split of the fee unlock (fee <= locked: unlock fee; locked < fee <= liquid+locked: unlock all; else nothing; a fee carrying another denomination makes the undelegation fail and changes nothing); messages and parameter updates leave the bank untouched; the escrow is a blocked recipient. App-level (props/C04app.v): no user transaction moves the escrow except by unlocking. Replayed against real histories; the books are recomputed on the real application after every operation.",
     "Trusted: as C03; vesting accounts are outside the model.")
-app_prop("C06", "fees", ["result"],
+app_prop("C06", "fees,efund", ["result"],
     "Coq theorems: if CheckTx admits a transaction with top-level WRKChain (resp. BEACON) messages then the amount offered in the module's fee denomination equals exactly the sum of the registration / record / per-slot fees of those messages under the current parameters, and liquid + locked funds of the payer cover it - for every accompanying denomination, order and multiplicity (permutation-invariance and additivity proved); slot counts >= 2^63 are rejected. The two listed gaps are machine-checked witnesses (mixed WRKChain+BEACON; registry message nested in MsgExec). CheckTx results of the real application are compared with the model (error classes: wrong denom / insufficient / too much / exceeds max storage) and with an independent fee oracle.",
     "Trusted: as C03; fee decorators run only in CheckTx (ctx.IsCheckTx), which is what the property speaks about.", quick_n=60)
 app_prop("C13", "mixed,ent,reg,stream", ["ent", "wrk", "bcn", "str", "params"],
@@ -100,7 +103,27 @@ app_prop("C13", "mixed,ent,reg,stream", ["ent", "wrk", "bcn", "str", "params"],
 app_prop("C14", "mixed,fees,ent", ["ent", "wrk", "bcn", "str", "params", "bank"],
     "Coq theorems: a transaction that fails before execution leaves the state unchanged; one whose k-th message fails (error or panic, every k) keeps exactly the ante stage's effects, and the ante stage touches only fee balances and - for registry transactions - the locked/spent books; CheckTx never executes messages; governance proposals are atomic; EndBlock is total. App-level (props/C14app.v): BeginBlock never panics in reachable states outside the listed class (enterprise denomination changed while an accepted order waits), which is a machine-checked witness. Replayed against real histories with panicking messages; every failed real transaction is checked to change nothing but fee/unlock observables.",
     "Trusted: as C03. Partial: that baseapp.runTx really recovers panics and discards its caches is runtime behaviour - validated by the correspondence (panicking messages occur in the histories), not proved.")
-app_prop("C16", "mixed,ent,reg", ["params"],
+app_prop("C16", "mixed,entgov,reggov,strgov", ["params"],
     "Coq theorems: each Params.Validate is equivalent to the stated validity predicate (with Go's casts); an update with any invalid field is rejected as a whole; stored parameters are valid in every reachable state of the node (deliver, check and committed states); only a governance update changes parameters and the new values are what every later fee check, limit check, tally and fee split reads (rewriting lemmas). Validate() of the four real modules is compared with the model on generated parameter structures; governance updates are executed mid-history on the real chain.",
     "Trusted: as C03.",
     extra_harness={"harness": [{"cmd": "params", "quick": ["-n", 3000], "thorough": ["-n", 100000, "-shard", 4000]}], "model_targets": ["model/ParamsCheck.vo"]})
+
+app_prop("C02", "mixed,ent,fees", ["bank"],
+    "Coq theorems: every message kind (incl. nested MsgExec and failed transactions), CheckTx, DeliverTx and EndBlock (governance updates) leave the supply of every denomination unchanged; BeginBlock raises the supply of the enterprise denomination by exactly the sum of the orders that were accepted before the block (which are completed afterwards) and of no other denomination; the sum of all balances equals the supply in every reachable state of the node (global invariant app_inv, by induction over all well-formed histories). Source-derived: only the enterprise (and the IBC transfer) module account holds Minter, the only caller chain of BankKeeper.MintCoins is BeginBlocker -> ProcessAcceptedPurchaseOrders -> MintCoinsAndLock, no inflation module runs. Replayed against real histories; supply deltas and the balance sum are recomputed on the real application.",
+    "Trusted: as C03; IBC voucher minting is outside the model (no channel is open in the harness); burns do not occur in the modelled operations (gov deposit burns are not modelled).")
+app_prop("C05", "efund,efund,fees", ["ent", "bank"],
+    "Coq theorems (global invariant app_inv): DeliverTx never raises a locked balance and lowers one only for the fee payer of a transaction with a top-level WRKChain/BEACON message whose ante stage passed, by exactly min(fee in the enterprise denomination, locked), recorded as spent; rejected transactions change nothing; no message kind at any nesting depth moves locked/spent books; order completion leaves every ordinary account's liquid balance unchanged; same rule for CheckTx on the check state. The vesting-purchaser class is a listed finding witnessed on the implementation. Replayed against real histories with every fee/locked/liquid relation, fee granters and bad signatures.",
+    "Trusted: as C03; vesting accounts are outside the model (listed finding C05 class 1).", quick_n=90)
+app_prop("C17", "ent,fees,mixed", ["supplyq", "ent"],
+    "Coq theorems (global invariant app_inv): SupplyOf(enterprise denom) = bank supply - total locked and is non-negative, other denominations are reported unchanged; EnterpriseSupply gives locked + unlocked = total with none negative (below 2^64; the Uint64() panic above is an observed witness). Both queries of the real application are compared with the model after every operation and the paginated total-supply listing is walked with several page sizes (each denomination exactly once).",
+    "Trusted: as C03. Not modelled: gRPC-gateway route precedence (that the enterprise endpoints replace the bank module's for REST clients).")
+PROPS["C20"] = {
+    "model_targets": ["model/PaginateCheck.vo"],
+    "harness": [{"cmd": "lists", "quick": ["-n", 5], "thorough": ["-n", 120, "-blocks", 24, "-shard", 1500], "timeout": 7200}],
+    "trusted_base": ["modelled: cosmos-sdk v0.47 types/query FilteredPaginate / GenericFilteredPaginate (key mode, offset mode, count_total, reverse, uint64 arithmetic); the stores' iteration order is byte order of the keys (C18 proves it is numeric order)",
+                     "ground truth of the correspondence comes from keeper iteration and point queries of the real application"],
+    "assumptions": ["callback / unmarshal errors do not occur"],
+    "level_text": "Coq theorems about the exact SDK pagination loops: following NextKey to the end, or advancing the offset by the limit, returns every item matching the filter exactly once and nothing else, in key order (also in reverse), for every store content, filter and limit (uint64 side conditions stated; the limit = 2^64-1 wrap is an observed witness); every single page is sound (stored, matching, no duplicates, at most limit items); count_total is the number of matching items. Source-derived: no store write or bank mutation is reachable from any query server method (call graph closure checked in Coq). Every paginated list query of the four modules on the real application is compared page by page with the model, whole key walks are compared with the filtered ground truth, listed items with point queries, and the state is compared before/after.",
+    "level_note": "Trusted: Coq kernel; the hand-written pagination model and its agreement with the SDK as far as generated requests go; translator call graph is name-resolved (over-approximate).",
+    "technique": "Coq proof over the modelled SDK pagination loops + source-derived call-graph closure + in-Coq differential check of every list query",
+}
